@@ -8,3 +8,41 @@ pub mod common;
 
 #[cfg(kani)]
 mod c12;
+#[cfg(kani)]
+mod c01;
+#[cfg(kani)]
+mod c02;
+#[cfg(kani)]
+mod c03;
+#[cfg(kani)]
+mod c04;
+#[cfg(kani)]
+mod c05;
+#[cfg(kani)]
+mod c06;
+#[cfg(kani)]
+mod c07;
+#[cfg(kani)]
+mod c08;
+#[cfg(kani)]
+mod c09;
+#[cfg(kani)]
+mod c10;
+#[cfg(kani)]
+mod c11;
+#[cfg(kani)]
+mod c13;
+#[cfg(kani)]
+mod c14;
+#[cfg(kani)]
+mod c15;
+#[cfg(kani)]
+mod c16;
+#[cfg(kani)]
+mod c17;
+#[cfg(kani)]
+mod c18;
+#[cfg(kani)]
+mod c19;
+#[cfg(kani)]
+mod c20;
